@@ -65,6 +65,11 @@ def corpus():
     for c in c05.corpus():
         if c["kind"] == "rules":
             out.append({"sdl": c["sdl"], "text": c["text"], "base_text": c["text"], "variant": "base", "origin": "witness"})
+    # seeded C06-a: the same document with the two exclusive inline fragments swapped
+    out.append({"sdl": c05.WITNESS_SDL, "text": c05._W[-1], "base_text": c05._W[-2], "variant": "perm_sels",
+                "origin": "witness"})
+    out.append({"sdl": c05.WITNESS_SDL, "text": c05._W[-2], "base_text": c05._W[-1], "variant": "perm_sels",
+                "origin": "witness"})
     chain = c05._CHAIN
     head = "query Q($v: Int) { anchor(req: 1, inn: {v: 1}, lnn: [1]) { ...Ta } }"
     base = head + " " + " ".join(chain)
